@@ -126,6 +126,27 @@ def alias_history(rng, rx=None):
     ops.append("T dump")
     return ops
 
+def outbound_history(rng):
+    """a published aircraft leaves the configured range in steps far below the jump limit: it starts 6 - 25 km inside the limit and flies
+    straight away from the receiver at about 4 km per report (north, south, east or west)"""
+    import math
+    rx = rng.choice([(39.0, -77.0), (52.3, 4.8), (-33.9, 151.2), (64.1, -21.9)])
+    R = rng.choice([150, 200, 300])
+    ops = ["T reset %s %s %s" % (rx[0], rx[1], R)]
+    f = Flight(rng, rng.bits(24), rx, plain=True)
+    d0 = R - 6 - rng.below(20)                                   # km inside the limit
+    dirn = rng.below(4)
+    klat = 111.19; klon = 111.19 * math.cos(math.radians(rx[0]))
+    dl, dn = [(1, 0), (-1, 0), (0, 1), (0, -1)][dirn]
+    f.lat = Fr(rx[0]) + Fr(int(dl * d0 / klat * 100000), 100000); f.lon = Fr(rx[1]) + Fr(int(dn * d0 / klon * 100000), 100000)
+    step = (Fr(int(dl * 4.0 / klat * 100000), 100000), Fr(int(dn * 4.0 / klon * 100000), 100000))
+    odd = rng.below(2)
+    for k in range(14):
+        ops.append(hexop("T act", f.position(rng, odd=odd))); odd ^= 1
+        f.lat += step[0]; f.lon += step[1]
+    ops.append("T dump")
+    return ops
+
 def wrap_history(rng):
     """places where a plain difference of coordinates is not a distance: a flight across the 180-degree meridian (eastbound or westbound, at
     several latitudes), and hops over a polar cap (same latitude, longitude 180 degrees apart: 89 km at 89.6 degrees). Every step is within the
